@@ -22,7 +22,7 @@ A scratch git worktree of the repository at the pinned commit: `/tmp/wt/{wt}` . 
 ## What to deliver
 
 1. A change to files under `jedi/` in the worktree (a realistic mistake a maintainer could make in a refactoring, optimisation or bug fix: an off-by-one, a dropped guard, a cache keyed too coarsely, a wrong operator, a lost `sorted`, two sites that each look fine alone, ...). It must NOT be something ordinary use exposes at once: it should need something specific to manifest — an unusual but valid input shape, a particular multi-step sequence of operations, a particular interleaving or crash point, a particular layout — while ordinary inputs keep working. Keep it small (typically 1-15 changed lines). Do not touch tests. {hint}
-2. `/tmp/wt/{wt}/DEMO.py`: a small stand-alone program, run as `PYTHONPATH=/tmp/wt/{wt} /venv/bin/python DEMO.py`, that exercises jedi's public API, checks the property on a concrete input, and exits 0 when the property holds and exits 1 (printing what went wrong) when it is violated. It must exit 1 with your change and exit 0 without it (verify both: use `git stash` / `git stash pop`, or `git diff > patch.diff; git checkout -- jedi; ...; git apply patch.diff`).
+2. `/tmp/wt/{wt}/DEMO.py`: a small stand-alone program, run as `PYTHONPATH=/tmp/wt/{wt} /venv/bin/python DEMO.py`, that exercises jedi's public API, checks the property on a concrete input, and exits 0 when the property holds and exits 1 (printing what went wrong) when it is violated. It must exit 1 with your change and exit 0 without it (verify both with `git diff -- jedi > patch.diff; git checkout -- jedi; <run>; git apply patch.diff`; NEVER use `git stash`: the stash is shared with other worktrees of this repository that other people are using at the same time).
 3. The test suite must pass as before. Run `cd /tmp/wt/{wt} && /venv/bin/python -m pytest -q -p no:cacheprovider --timeout=900 -n 6 -rf test jedi 2>&1 | grep -E "^(FAILED|ERROR)" | sort > /tmp/wt/{wt}/fails_before.txt` once WITHOUT your change (several thousand tests fail already in this sandbox for environment reasons - a broken python3.12 shim on PATH - that is expected) and the same into `fails_after.txt` WITH it; `diff fails_before.txt fails_after.txt` must show no additional failing test (a handful of flaky ones aside - re-run those individually).
 4. Leave the change APPLIED in the worktree and write `/tmp/wt/{wt}/patch.diff` (output of `git diff -- jedi`), and `/tmp/wt/{wt}/META.txt` with: which clause of the property it breaks, what exactly is needed for it to manifest, and the commands you ran with their outcome (test counts before/after, DEMO exit codes before/after).
 
